@@ -29,14 +29,33 @@ type beh struct {
 		Mode string `json:"mode"`
 		Bits []bool `json:"bits"`
 	} `json:"bsel"`
-	Policy []string `json:"policy"`
-	SetAt  string   `json:"setat"`
+	Policy []string          `json:"policy"`
+	SetAt  string            `json:"setat"`
+	Tr     []json.RawMessage `json:"tr"` // identified prints and calls of f, in execution order
+}
+
+// fRange returns the first and the last line of the body of func f in the rendered source.
+func fRange(src string) (first, last int) {
+	ls := strings.Split(src, "\n")
+	for n, l := range ls {
+		if strings.HasPrefix(l, "func f(") {
+			first = n + 2
+			for m := n + 1; m < len(ls); m++ {
+				if ls[m] == "}" {
+					return first, m
+				}
+			}
+		}
+	}
+	return 0, 0
 }
 
 type job struct {
 	Src     string   `json:"src"`
 	Breaks  []int    `json:"breaks"`
 	FBreaks []string `json:"fbreaks"`
+	FFirst  int      `json:"ffirst"` // lines of the body of f
+	FLast   int      `json:"flast"`
 	Policy  []string `json:"policy"`
 	SetAt   string   `json:"set_at"`
 }
@@ -100,7 +119,7 @@ func run(c *fw.Ctx) error {
 	c.Rule = "one session = (random GoCore program, breakpoint selection: none / all / seeded subset of the lines of print statements without effectful calls / function breakpoint on f, resume policy: cyclic sequence over continue, step-into, step-over, step-out); non-trivial when the session has at least one stop; distinct by (source, breakpoints, policy)"
 	c.Assumptions = []string{
 		"breakpoints are placed on the lines of print statements whose operand has no effectful call: each execution of such a line is one output line of the specification, so the expected hits and their order come from the model",
-		"function breakpoints are exercised for output independence only (their hits are not predicted)",
+		"a function breakpoint on f is expected to stop once per call of f, in execution order with the line breakpoints (GoCore logs the calls); where in f the stop is reported is not constrained",
 		"sessions are single-goroutine; Interrupt and variable inspection are not exercised",
 		"after 300 stops the driver switches to continue",
 	}
@@ -175,21 +194,46 @@ func run(c *fw.Ctx) error {
 				}
 			}
 		case "func":
-			j.FBreaks = []string{"main.f"}
+			j.FBreaks = []string{"f"}
+		case "mixed":
+			j.FBreaks = []string{"f"}
+			for k, id := range ids {
+				if b.Bsel.Bits[k%len(b.Bsel.Bits)] {
+					on[id] = true
+				}
+			}
 		}
+		fFirst, fLast := fRange(srcs[i])
+		if len(j.FBreaks) > 0 {
+			// no line breakpoint inside f: the function breakpoint stops where f begins to execute
+			// (possibly inside a nested block), and whether a line breakpoint on that very line
+			// makes one stop or two is not part of the property
+			for _, id := range ids {
+				if lines[id] >= fFirst && lines[id] <= fLast {
+					delete(on, id)
+				}
+			}
+		}
+		j.FFirst, j.FLast = fFirst, fLast
 		for _, id := range ids {
 			if on[id] {
 				j.Breaks = append(j.Breaks, lines[id])
 			}
 		}
+		// expected stops with reason "break", in execution order: the line of every executed
+		// print that carries a line breakpoint, and -1 for every call of f when f carries a
+		// function breakpoint (GoCore's trace tr)
 		var exp []int
-		for _, raw := range b.Out {
+		for _, raw := range b.Tr {
 			var it []any
 			json.Unmarshal(raw, &it)
-			if len(it) == 3 && it[0] == "p" {
+			switch {
+			case len(it) == 2 && it[0] == "p":
 				if id := int(it[1].(float64)); on[id] {
 					exp = append(exp, lines[id])
 				}
+			case len(it) == 1 && it[0] == "c" && len(j.FBreaks) > 0:
+				exp = append(exp, -1)
 			}
 		}
 		jobs, sel, expects = append(jobs, j), append(sel, i), append(expects, exp)
@@ -230,14 +274,17 @@ func run(c *fw.Ctx) error {
 				trace.WriteByte('\n')
 				n++
 			}
-			checkBreaks := len(j.FBreaks) == 0
+			lineBP := map[int]bool{}
+			for _, l := range j.Breaks {
+				lineBP[l] = true
+			}
 			w(map[string]any{"e": "Start", "run": id, "expect": exp})
 			stops := 0
 			for _, e := range s.Events {
 				if e.E == "Stop" {
 					stops++
-					if !checkBreaks && e.Reason == "break" {
-						e.Reason = "fbreak" // function breakpoints: not predicted
+					if len(j.FBreaks) > 0 && e.Reason == "break" && !lineBP[e.Line] && e.Line >= j.FFirst-1 && e.Line <= j.FLast {
+						e.Line = -1 // the stop of the function breakpoint, wherever the first node of f is
 					}
 				}
 				w(e)
